@@ -109,10 +109,14 @@ def one_exchange(ctx, code: str, salt: bytes, a: int, b: int, tag: str) -> None:
             ctx.violation("corrupted-accessory-proof-accepted", f"[{tag}] M2 with bit {bit} flipped accepted", replay)
             return
         ctx.count("m2_bitflips_rejected")
-    for bad in (b"", M2[:-1], M2 + b"\x00", bytes(64)):
+    # proofs of another length - also the ones that are NUMERICALLY equal to the correct proof (a zero byte prepended; the
+    # leading zero bytes of a proof that starts with 0x00 removed): the correct proof is exactly these 64 bytes
+    for bad in (b"", M2[:-1], M2 + b"\x00", bytes(64), b"\x00" + M2, bytes(3) + M2, M2[1:], M2.lstrip(b"\x00")):
         if bad != M2 and cl.verify_servers_proof_bytes(bad):
-            ctx.violation("malformed-accessory-proof-accepted", f"[{tag}] accepted proof of {len(bad)} bytes", replay)
+            same_number = int.from_bytes(bad, "big") == int.from_bytes(M2, "big")
+            ctx.violation("malformed-accessory-proof-accepted" + ("-numerically-equal" if same_number else ""), f"[{tag}] accepted a proof of {len(bad)} bytes (the correct one has 64; first byte {M2[0]:02x})", replay)
             return
+        ctx.count("malformed_proofs_rejected")
     # wrong setup code: one digit changed
     digits = [i for i, ch in enumerate(code) if ch.isdigit()]
     if digits:
